@@ -4,16 +4,26 @@ import OFCore.Drv.Per
 Line protocol handler for the `sin` domain (spreading of long-period inputs, C16).
 
 ```
-sin <defUnit> <absent|dispatch|divide> <num|int> <count> <op> <op> …
-   op = S|<period>|<mode>|<v1;v2;…>   set_input            -> ok | ERR
-        G|<period>                    get_array            -> v1;v2;… | none
-        A|<period>                    calculate_add        -> v1;v2;… | empty | ERR
+sin <defUnit> <absent|dispatch|divide> <kind>[:<opt>…] <count> <op> <op> …
+   kind = num | int | bool | date | str | enum      (the last four: items only copied, `VKind.opaque`)
+   opt  = n            the variable is neutralised
+          e<Y,M,D>     the variable's `end`
+          d | b        harness only (arrays forced to disk / inputs fed through SimulationBuilder)
+   op = S|<period>|<mode>|<v1;v2;…>   Simulation.set_input (checks `end`)   -> ok | ERR
+        H|<period>|<mode>|<v1;v2;…>   Holder.set_input directly             -> ok | ERR
+        G|<period>[|<spelling>]       get_array            -> v1;v2;… | none
+        A|<period>[|<spelling>]       calculate_add        -> v1;v2;… | empty | ERR
         K                             all known periods    -> [p=v1;v2&p=…]   (sorted)
 ```
 One case per line (a fresh holder), the answers of the ops separated by one blank. `<mode>` says
-how the harness passes the values to the real code (Python floats, ints, tuples, numpy arrays;
-`<mode>@<k>` = the caller's object number `k`, the same object passed again); the model ignores it:
-an argument is an input whose value is the one written in the token, never scratch space. Values are exact rationals `p/q` in lowest terms (`p` when `q = 1`).
+how the harness passes the values to the real code (Python floats, ints, tuples, numpy arrays,
+scalars, expression strings; `<mode>@<k>` = the caller's object number `k`, the same object passed
+again; `~<spelling>` = the period given as Period / str / int); the model ignores it: an argument is
+an input whose value is the one written in the token, never scratch space. The one exception is the
+container `z` (items that are no values of the variable's type, e.g. the text "abc" for a float
+variable): `_to_array` refuses it exactly where it refuses a vector of the wrong length, and that is
+how the driver presents it to the model. Values are exact rationals `p/q` in lowest terms (`p` when
+`q = 1`); items of the opaque kinds travel as integer codes.
 -/
 namespace OFCore.Drv
 
@@ -55,25 +65,58 @@ def parseRule? : String → Option SRule
   | "absent" => some .absent | "dispatch" => some .dispatch | "divide" => some .divide | _ => none
 
 def parseKind? : String → Option VKind
-  | "num" => some .num | "int" => some .int | _ => none
+  | "num" => some .num | "int" => some .int
+  | "bool" => some .opaque | "date" => some .opaque | "str" => some .opaque | "enum" => some .opaque
+  | _ => none
+
+/-- `<kind>[:<opt>…]` -> (kind, neutralised, end) -/
+def parseKindOpts? (tok : String) : Option (VKind × Bool × Option Date) :=
+  match tok.splitOn ":" with
+  | [] => none
+  | k :: opts => do
+    let kind ← parseKind? k
+    let rec go (neut : Bool) (e : Option Date) : List String → Option (Bool × Option Date)
+      | [] => some (neut, e)
+      | o :: r =>
+        if o = "n" then go true e r
+        else if o = "d" ∨ o = "b" then go neut e r
+        else if o.startsWith "e" then
+          match parseDate? ((o.drop 1).toString) with
+          | some d => go neut (some d) r
+          | none => none
+        else none
+    let (neut, e) ← go false none opts
+    pure (kind, neut, e)
 
 inductive SinOp
   | set (p : Period) (v : Vec)
+  | hset (p : Period) (v : Vec)
   | get (p : Period)
   | add (p : Period)
   | known
 
 def parseOp? (tok : String) : Option SinOp :=
   match tok.splitOn "|" with
-  | ["S", p, _mode, vs] => do pure (.set (← parsePeriod? p) (← parseVec? vs))
+  | ["S", p, mode, vs] => do
+    let v ← parseVec? vs
+    pure (.set (← parsePeriod? p) (if mode.startsWith "z" then [] else v))
+  | ["H", p, mode, vs] => do
+    let v ← parseVec? vs
+    pure (.hset (← parsePeriod? p) (if mode.startsWith "z" then [] else v))
   | ["G", p] => do pure (.get (← parsePeriod? p))
+  | ["G", p, _] => do pure (.get (← parsePeriod? p))
   | ["A", p] => do pure (.add (← parsePeriod? p))
+  | ["A", p, _] => do pure (.add (← parsePeriod? p))
   | ["K"] => some .known
   | _ => none
 
 def runOps (var : VarSpec) : Store → List SinOp → List String
   | _, [] => []
   | s, .set p v :: r =>
+    match simSetInput var s p v with
+    | .ok s' => "ok" :: runOps var s' r
+    | .error _ => "ERR" :: runOps var s r
+  | s, .hset p v :: r =>
     match setInput var s p v with
     | .ok s' => "ok" :: runOps var s' r
     | .error _ => "ERR" :: runOps var s r
@@ -89,9 +132,11 @@ def runOps (var : VarSpec) : Store → List SinOp → List String
 def handleSin (args : List String) : String :=
   match args with
   | du :: rule :: kind :: cnt :: ops =>
-    match DUnit.ofName du, parseRule? rule, parseKind? kind, cnt.toNat?, ops.mapM parseOp? with
-    | some du, some rule, some kind, some cnt, some ops =>
-      if ops.isEmpty then "BAD" else " ".intercalate (runOps ⟨du, rule, kind, cnt⟩ [] ops)
+    match DUnit.ofName du, parseRule? rule, parseKindOpts? kind, cnt.toNat?, ops.mapM parseOp? with
+    | some du, some rule, some (kind, neut, e), some cnt, some ops =>
+      if ops.isEmpty then "BAD"
+      else " ".intercalate (runOps { defUnit := du, rule := rule, kind := kind, count := cnt,
+                                     neutralized := neut, endDate := e } [] ops)
     | _, _, _, _, _ => "BAD"
   | _ => "BAD"
 
